@@ -268,6 +268,83 @@ static int c01_cmd (char *line)
   int n = vh_split (copy, tok, 16);
   if (n == 0)
     return 0;
+  if (!strcmp (tok[0], "preload") && n == 2)
+    {
+      /* load a generated program before the limits are lowered (the compiler allocates too) */
+      char path[128];
+      error_context_t econ;
+      snprintf (path, sizeof path, "/c01/gen/%s", tok[1]);
+      save_context (&econ);
+      if (!setjmp (econ.context))
+        {
+          eval_cost = CONFIG_INT (__MAX_EVAL_COST__);
+          if (!find_object_by_name (path))
+            load_object (path, 0);
+          pop_context (&econ);
+        }
+      else
+        {
+          restore_context (&econ);
+          pop_context (&econ);
+        }
+      return 1;
+    }
+  if (!strcmp (tok[0], "cfglim") && n == 3)
+    {
+      /* limit-edge family: lower a configured limit for this case (by name, not by config index) */
+      static const struct { const char *name; int idx; } lim[] = {
+        { "MaxArraySize", __MAX_ARRAY_SIZE__ }, { "MaxMappingSize", __MAX_MAPPING_SIZE__ },
+        { "MaxBufferSize", __MAX_BUFFER_SIZE__ }, { "MaxStringLength", __MAX_STRING_LENGTH__ },
+        { "MaxBitfieldBits", __MAX_BITFIELD_BITS__ }, { "MaxByteTransfer", __MAX_BYTE_TRANSFER__ },
+        { "MaxReadFileSize", __MAX_READ_FILE_SIZE__ }, { "MaxEvaluationCost", __MAX_EVAL_COST__ },
+      };
+      for (unsigned k = 0; k < sizeof lim / sizeof lim[0]; k++)
+        if (!strcmp (tok[1], lim[k].name))
+          {
+            CONFIG_INT (lim[k].idx) = atoi (tok[2]);
+            return 1;
+          }
+      vh_out ("badcmd %s", line);
+      return 1;
+    }
+  if (!strcmp (tok[0], "expl") && n == 4)
+    {
+      /* unit-style: the real explode_string() on "x,x,...,x" (d delimiters; tail 0: the string ends with the
+         delimiter) under MaxArraySize = max; prints the size of the result and the number of slots filled */
+      int max = atoi (tok[1]), d = atoi (tok[2]), tail = atoi (tok[3]);
+      size_t cap = 2 * (size_t) d + 4, len = 0;
+      char *str = (char *) malloc (cap);
+      error_context_t econ;
+      str[len++] = 'x';
+      for (int k = 0; k < d; k++)
+        {
+          str[len++] = ',';
+          if (k < d - 1 || tail)
+            str[len++] = 'x';
+        }
+      str[len] = 0;
+      CONFIG_INT (__MAX_ARRAY_SIZE__) = max;
+      save_context (&econ);
+      if (!setjmp (econ.context))
+        {
+          array_t *a = explode_string (str, len, ",", 1);
+          int filled = 0;
+          for (int k = 0; k < a->size; k++)
+            if (a->item[k].type == T_STRING)
+              filled++;
+          vh_out ("r expl size=%d filled=%d", (int) a->size, filled);
+          free_array (a);
+          pop_context (&econ);
+        }
+      else
+        {
+          restore_context (&econ);
+          pop_context (&econ);
+          vh_out ("r expl !err");
+        }
+      free (str);
+      return 1;
+    }
   if (!strcmp (tok[0], "expect-abort"))
     return 1;			/* annotation for the model (open known findings): no effect here */
   if (!strcmp (tok[0], "idx") && n == 7)
